@@ -179,7 +179,9 @@ ResetPtr Reset::clone() const
     auto r = create();
 
     r->setId(id());
-    r->setOrder(order());
+    if (pFunc()->mOrderSet) {
+        r->setOrder(order());
+    }
     r->setResetValue(resetValue());
     r->setResetValueId(resetValueId());
     r->setTestValue(testValue());
